@@ -224,6 +224,10 @@ class RunStat:
         return self.v
 
 
+class SpecDeviation(Exception):
+    pass
+
+
 def spec_replay(rig):
     """importance values / variances after every call recomputed from the RECORDED callbacks by the property's definition (Python
     replica of the Lean spec, used only by the long-stream search where the driver would be slow)"""
@@ -237,6 +241,13 @@ def spec_replay(rig):
     out = []
     started = False
     mp, margl, modell = {}, RunStat(alpha), RunStat(alpha)
+
+    class _Never(dict):
+        """recorded loss evaluations; a value the definition needs but the implementation never evaluated is a deviation"""
+        def __missing__(self, key):
+            raise SpecDeviation(f"the property's definition needs the loss of label {key[0]} at {key[1][:160]}, which the implementation "
+                                f"never evaluated in this stream")
+    loss = _Never(loss)
     for t, rec in enumerate(rig.steps):
         if rec["error"] is not None:
             out.append(None)
@@ -318,7 +329,16 @@ def long_stream_probe(chk, kind, files, label, identity=None):
                         bad = (t, f)
                         break
             if bad is None:
-                spec = spec_replay(rig)
+                try:
+                    spec = spec_replay(rig)
+                except SpecDeviation as dev:
+                    spec = []
+                    bad = (len(rig.steps) - 1, str(dev))
+                except (KeyError, IndexError, ZeroDivisionError) as dev:
+                    # the recorded behaviour does not have the shape the definition prescribes (e.g. a coalition was never imputed)
+                    spec = []
+                    bad = (len(rig.steps) - 1, f"the recorded callbacks cannot be replayed by the property's definition ({type(dev).__name__}: {dev}): "
+                                               f"the imputer was asked for {[len(r.get('imp_calls', [])) for r in rig.steps[1:4]]} coalitions in the first explained calls, d = {rig.d}")
                 for t, (rec, sp) in enumerate(zip(rig.steps, spec)):
                     if sp is None:
                         continue
